@@ -22,7 +22,7 @@ def phase_panel(run, pool):
     t = time.time()
     cfgs = P.panel_configs(run.seed)
     n0 = run.evals
-    pool.run(({"id": i, "kind": "panel", "config": c, "deadline": 120} for i, c in enumerate(cfgs)), run.absorb)
+    pool.run(({"id": i, "kind": "panel", "config": c, "deadline": 240} for i, c in enumerate(cfgs)), run.absorb)
     run.phase_info["unbiasedness_panel"] = {"configs": run.evals - n0, "keys_per_config": 256, "threshold_sigma": 7.0,
                                             "max_z": round(run.max.get("panel_max_z", 0.0), 3),
                                             "wall_s": round(time.time() - t, 1)}
